@@ -69,4 +69,10 @@ TEXT = {
         design_ref='DESIGN.md §5 C08',
         note="serde's derive semantics are modelled, not verified; alternative input encodings (positional arrays) are outside the model and reported as UNMODELLED counts in the evidence.",
     ),
+    'C17': dict(
+        technique='Lean 4 proof that the interpreter of builder-call sequences (transcribing src/build.rs) equals the declarative last-setter-wins / order-preserving / PhantomData-erasing / docs-gated description, for all call sequences + differential runs of the real builders with and without the docs feature',
+        level="Proof: SIM.C17.build_lossless (for EVERY sequence of builder calls and argument values, both forms, both settings of the docs feature: the built type = path, parameters, fields, variants, indices, type names and docs supplied, in the order supplied), field/fields/variant_lossless, phantom_never_listed, tuple_new_spec, portable_keeps_all, fields_order, docs_gating, docs_feature_off_erases, ofDef_spec. Tie: random builder programs run on the real builders by two harness builds (docs off / on), results compared with the declarative spec (SPECFAIL) and the interpreter (DIFF).",
+        design_ref='DESIGN.md §5 C17',
+        note="The 'never listed by the derive or the built-in impls' clause is observed on the program corpora of C09/C04 and proved for the Impls model in C16's file; builder programs are restricted to what the typestate API lets rustc accept.",
+    ),
 }
